@@ -77,6 +77,10 @@ def CollidesAt (sch : SchemaEval) (S : SDoc → Prop) (i : Index) (d : Doc) : Pr
 def Collides (sch : SchemaEval) (c : Coll) (d : Doc) : Prop :=
   ∃ n i, (n, i) ∈ c.indexes ∧ CollidesAt sch (· ∈ c.docs) i d
 
+/-- every partial filter of the collection can be evaluated on `d` (no `Match` error) -/
+def FiltersTotal (sch : SchemaEval) (c : Coll) (d : Doc) : Prop :=
+  ∀ n i, (n, i) ∈ c.indexes → ∃ b, partialMatches sch i d = .ok b
+
 /-- the `_id_` index with its fixed definition is present -/
 def IdIndexPresent (c : Coll) : Prop := ∃ i, ("_id_", i) ∈ c.indexes ∧ i.config = idIndexConfig
 
